@@ -23,6 +23,7 @@ func checkC18(r *Report, p *Program) {
 	r18_4(r, p)
 	informerAcquireRelease(r, p, "R18.5")
 	checkThenAct(r, p, "R18.6")
+	locksReleased(r, p, "R18.7", 10)
 }
 
 // lockDiscipline (A6): all accesses to the selected shared maps hold one common
